@@ -3,7 +3,7 @@
    whatever the Jacobian, the L/U factors, Ynew, the initial forcing, the stage vectors K and the error vector
    held before (of the right shape).  Bisimulation over every accept / reject history. *)
 From Model Require Import Base Rosenbrock.
-From Coq Require Import Lia.
+From Coq Require Import Lia Ring.
 Local Open Scope nat_scope.
 
 Section RosScratch.
@@ -495,4 +495,167 @@ Section RosScratch.
   Proof.
     unfold ros_solve. cbv zeta. cbn [r_final_time r_trace]. apply loop_time. reflexivity.
   Qed.
+
+  (* ---------- C09: linear invariants are propagated by every stage, every attempt, every exit ---------- *)
+  Section Conservation.
+    Hypothesis Nring : ring_theory (n0 N) (n1 N) (nadd N) (nmul N) (nsub N) (nopp N) eq.
+    Add Ring RosRing : Nring.
+    Variable dotw : V -> T.                               (* y |-> sum_i w_i y_i over a cell, or over all cells *)
+    Hypothesis Hlin : forall a x y, dotw (vaxpy a x y) = nadd N (nmul N a (dotw x)) (dotw y).
+    Hypothesis Hforce : forall y z, dotw (forcing y z) = n0 N.      (* C09_forcing_conserves_linear_invariants *)
+    (* an exact solve with alpha I - J, w^T J = 0, alpha <> 0: alpha w.x = w.rhs *)
+    Hypothesis Hsolve_sep : forall lu rhs, dotw rhs = n0 N -> dotw (solve_sep lu rhs) = n0 N.
+    Hypothesis Hsolve_ip : forall lu rhs, dotw rhs = n0 N -> dotw (solve_ip lu rhs) = n0 N.
+
+    Definition Kz (S : nat -> Prop) (K : list V) : Prop :=
+      p_stages p <= length K /\ forall j d, S j -> j < p_stages p -> dotw (nth j K d) = n0 N.
+
+    Lemma Kz_upd (S : nat -> Prop) K i v : Kz S K -> dotw v = n0 N -> Kz (fun j => S j \/ j = i) (upd i v K).
+    Proof.
+      intros [Hl Hz] Hv. split; [rewrite upd_length; exact Hl|].
+      intros j d Hj Hjs. rewrite nth_upd.
+      destruct (Nat.eqb_spec i j) as [<- | Hne]; cbn [andb].
+      - destruct (Nat.ltb_spec i (length K)); [exact Hv | lia].
+      - destruct Hj as [Hj | Hj]; [apply Hz; assumption | congruence].
+    Qed.
+    Lemma Kz_weaken (S S' : nat -> Prop) K : (forall j, S' j -> S j) -> Kz S K -> Kz S' K.
+    Proof. intros H [Hl Hz]. split; [exact Hl | intros j d Hj; apply Hz; apply H; exact Hj]. Qed.
+
+    Lemma fold_vaxpy_zero (c : nat -> T) (K : list V) d n y0 :
+      (forall j, j < n -> dotw (kget V K j d) = n0 N) ->
+      dotw (fold_left (fun y j => vaxpy (c j) (kget V K j d) y) (seq 0 n) y0) = dotw y0.
+    Proof.
+      intros Hz.
+      assert (G : forall l y, (forall j, In j l -> j < n) ->
+                dotw (fold_left (fun y j => vaxpy (c j) (kget V K j d) y) l y) = dotw y).
+      { induction l as [|j l IH]; intros y Hl; cbn [fold_left]; [reflexivity|].
+        rewrite IH by (intros j' Hj'; apply Hl; right; exact Hj').
+        rewrite Hlin, (Hz j (Hl j (or_introl eq_refl))). ring. }
+      apply G. intros j Hj. apply in_seq in Hj. lia.
+    Qed.
+
+    Definition stz (k : nat) (s : rstate) : Prop :=
+      dotw (sInitF s) = n0 N /\ Kz (fun j => j < k \/ (j = k /\ handed k)) (sK s).
+
+    Lemma stage_cons H s lm lf k : k < p_stages p -> stz k s ->
+      stz (S k) (fst (fst (stage1 H s lm lf k))) /\ sY (fst (fst (stage1 H s lm lf k))) = sY s.
+    Proof.
+      intros Hk [HF HK]. rewrite stage_step_split.
+      (* the function value of the stage *)
+      assert (H1 : Kz (fun j => j <= k) (fst (fst (fst (first_part s k))))).
+      { unfold first_part. cbv zeta.
+        destruct (Nat.eqb_spec k 0) as [-> | Hk0]; cbn [fst snd].
+        - unfold kset. eapply Kz_weaken; [|apply Kz_upd; [exact HK | exact HF]]. intros j Hj. right. lia.
+        - destruct (nth k (p_newf p) false) eqn:Hnf; cbn [fst snd].
+          + unfold kset. eapply Kz_weaken; [|apply Kz_upd; [exact HK | apply Hforce]]. intros j Hj.
+            destruct (Nat.eq_dec j k); [right; assumption | left; left; lia].
+          + eapply Kz_weaken; [|exact HK]. intros j Hj.
+            destruct (Nat.eq_dec j k) as [-> | Hne]; [right; split; [reflexivity | split; [lia | split; [exact Hk | exact Hnf]]] | left; lia]. }
+      destruct (first_part s k) as [[[K1 Yn1] ev1] nf]. cbn [fst snd] in H1.
+      unfold tail_part. cbv zeta. cbn [fst snd sY sInitF sK].
+      set (d := sY s). set (comb := k * (k - 1) / 2).
+      set (K2 := if (k + 1 <? p_stages p) && negb (nth (k + 1) (p_newf p) false) then kset V K1 (k + 1) (kget V K1 k d) else K1).
+      assert (HK2 : Kz (fun j => j <= k \/ (j = S k /\ handed (S k))) K2).
+      { unfold K2. destruct ((k + 1 <? p_stages p) && negb (nth (k + 1) (p_newf p) false)) eqn:Hh.
+        - unfold kset. eapply Kz_weaken; [|apply Kz_upd; [exact H1|]].
+          + intros j [Hj | [Hj _]]; [left; exact Hj | right; lia].
+          + unfold kget. apply (proj2 H1); lia.
+        - eapply Kz_weaken; [|exact H1]. intros j [Hj | [Hj (_ & Hlt & Hnf)]]; [exact Hj|].
+          exfalso. apply Bool.andb_false_iff in Hh. destruct Hh as [Hh | Hh].
+          + apply Nat.ltb_ge in Hh. lia.
+          + replace (k + 1) with (S k) in Hh by lia. rewrite Hnf in Hh. discriminate. }
+      set (rhs := fold_left (fun kk j => vaxpy (ndiv N (qn N (p_c p) (comb + j)) H) (kget V K2 j d) kk) (seq 0 k) (kget V K2 k d)).
+      assert (Hrhs : dotw rhs = n0 N).
+      { unfold rhs. rewrite (fold_vaxpy_zero (fun j => ndiv N (qn N (p_c p) (comb + j)) H) K2 d k).
+        - unfold kget. apply (proj2 HK2); [left; lia | exact Hk].
+        - intros j Hj. unfold kget. apply (proj2 HK2); [left; lia | lia]. }
+      split; [|reflexivity]. split; [exact HF|].
+      unfold kset. eapply Kz_weaken; [|apply Kz_upd; [exact HK2|]].
+      - intros j [Hj | [Hj Hh]]; [left; left; lia | left; right; split; assumption].
+      - destruct in_place; [apply Hsolve_ip | apply Hsolve_sep]; exact Hrhs.
+    Qed.
+
+    Lemma stages_cons H s : stz 0 s ->
+      stz (p_stages p) (fst (fst (stages H s))) /\ sY (fst (fst (stages H s))) = sY s.
+    Proof.
+      unfold stages_loop. intros H0.
+      assert (G : forall m, m <= p_stages p ->
+        let r := fold_left (fun (acc : rstate * list event * nat) stage =>
+                   let '(s, ev, nf) := acc in
+                   let '(s', ev', nf') := stage1 H s (sJac s) (sLU s) stage in (s', ev ++ ev', nf + nf'))
+                 (seq 0 m) (s, [], 0) in
+        stz m (fst (fst r)) /\ sY (fst (fst r)) = sY s).
+      { induction m as [|m IH]; intros Hm; cbv zeta.
+        - cbn. split; [exact H0 | reflexivity].
+        - rewrite seq_S, fold_left_app. cbn [fold_left plus].
+          specialize (IH ltac:(lia)). cbv zeta in IH.
+          destruct (fold_left _ (seq 0 m) (s, [], 0)) as [[s1 ev1] nf1]. cbn [fst snd] in IH.
+          destruct IH as [IS EY].
+          pose proof (stage_cons H s1 (sJac s1) (sLU s1) m ltac:(lia) IS) as [S1 S2].
+          destruct (stage1 H s1 (sJac s1) (sLU s1) m) as [[s2 ev2] nf2]. cbn [fst snd] in *.
+          split; [exact S1 | congruence]. }
+      exact (G (p_stages p) (le_n _)).
+    Qed.
+
+    (* the weighted sum of the concentrations is the same at every point of the loops *)
+    Definition cinv (c0 : T) (l : loop_state) : Prop :=
+      dotw (sY (l_s l)) = c0 /\ p_stages p <= length (sK (l_s l)) /\
+      (l_fresh l = false -> dotw (sInitF (l_s l)) = n0 N).
+
+    Lemma iter_cons time_step h_max c0 l : cinv c0 l ->
+      match iter time_step h_max l with
+      | inr (l', _) => cinv c0 l'
+      | inl (_, _, _, s, _) => dotw (sY s) = c0
+      end.
+    Proof.
+      intros (HY & HKl & HF). rewrite ros_iter_split.
+      assert (Htop : match top_part time_step l with
+                     | inl _ => True
+                     | inr (l1, _) => cinv c0 l1 /\ l_fresh l1 = false
+                     end).
+      { unfold top_part. destruct (l_fresh l) eqn:Hfr;
+          [|split; [split; [exact HY | split; [exact HKl | intros _; apply HF; reflexivity]] | exact Hfr]].
+        destruct (negb (leb (nadd N (nsub N (l_t l) time_step) (p_round_off p)) (n0 N))); [exact I|].
+        destruct (p_max_steps p <? number_of_steps (l_stats l)); [exact I|].
+        destruct (absorbed (l_t l) (l_H l) || leb (l_H l) (p_round_off p)); [exact I|].
+        cbv zeta. split; [|reflexivity]. unfold cinv. cbn [l_s l_fresh sY sK sInitF].
+        split; [exact HY | split; [exact HKl | intros _; apply Hforce]]. }
+      destruct (top_part time_step l) as [st | [l1 ev0]]; [exact HY|].
+      destruct Htop as [(HY1 & HK1 & HF1) Hfr1]. specialize (HF1 Hfr1).
+      unfold attempt_part. cbv zeta.
+      match goal with |- context [stages ?H ?s1] =>
+        assert (Hst : stz 0 s1);
+          [split; [cbn [sInitF]; exact HF1 | split; [cbn [sK]; exact HK1 | intros j d [Hj | [_ (Hh & _)]]; lia]]|];
+        pose proof (stages_cons H s1 Hst) as [SZ SY];
+        destruct (stages H s1) as [[s2 evs] nf] end.
+      cbn [fst snd sY] in SZ, SY.
+      assert (Hynew : dotw (fold_left (fun y i => vaxpy (qn N (p_m p) i) (kget V (sK s2) i (sY (l_s l1))) y)
+                                      (seq 0 (p_stages p)) (sY s2)) = c0).
+      { rewrite (fold_vaxpy_zero (fun i => qn N (p_m p) i) (sK s2) (sY (l_s l1)) (p_stages p)).
+        - rewrite SY. exact HY1.
+        - intros j Hj. unfold kget. apply (proj2 (proj2 SZ)); [left; exact Hj | exact Hj]. }
+      assert (HY2 : dotw (sY s2) = c0) by (rewrite SY; exact HY1).
+      repeat match goal with |- context [if ?b then _ else _] =>
+               match b with in_place => fail 1 | _ => destruct b end end;
+        try (destruct in_place); cbv beta iota; unfold cinv, swapY;
+        cbn [l_s l_fresh sY sK sInitF sYnew];
+        first [ exact Hynew | exact HY2
+              | split; [first [exact Hynew | exact HY2] | split; [apply (proj1 (proj2 SZ)) | first [discriminate | intros _; apply (proj1 SZ)]]] ].
+    Qed.
+
+    Theorem ros_conserves_linear_invariants fuel time_step (s : rstate) :
+      p_stages p <= length (sK s) ->
+      dotw (sY (r_s (solve fuel time_step s))) = dotw (sY s).
+    Proof.
+      intros HK. unfold ros_solve. cbv zeta. cbn [r_s].
+      assert (G : forall hm fuel l tr, cinv (dotw (sY s)) l -> dotw (sY (r_s (loop fuel time_step hm l tr))) = dotw (sY s)).
+      { intros hm. induction fuel0 as [|f IH]; intros l tr HI; cbn [ros_loop].
+        - cbn [r_s]. apply HI.
+        - pose proof (iter_cons time_step hm (dotw (sY s)) l HI) as Hs.
+          destruct (iter time_step hm l) as [[[[[st t] sts] s1] ev]|[l1 ev]].
+          + cbn [r_s]. exact Hs.
+          + apply IH. exact Hs. }
+      apply G. unfold cinv. cbn [l_s l_fresh]. split; [reflexivity | split; [exact HK | discriminate]].
+    Qed.
+  End Conservation.
 End RosScratch.
